@@ -62,7 +62,7 @@ from .. import gen, view
 from ..harness import Result, Violation, clip, parallel, seed
 from .mut import _spec_json, spec_from_json
 
-WD = 6.0  # watchdog for every wait (seconds); reaching it is reported, never silently accepted
+WD = 4.0  # watchdog for every wait (seconds); reaching it is reported, never silently accepted
 _RLOCK_TYPE = type(threading.RLock())
 
 
@@ -358,12 +358,21 @@ def _ops_for(cls_name: str, table=OPS):
     return [k for k, v in table.items() if cls_name == "TypedTree" or not v[2]]
 
 
+_LOCKERRS: list = []  # lock-protocol errors raised by the library during the current case
+_BREAKER = None  # cross-process count of watchdog time-outs (multiprocessing.Value), set by run()
+
+
 def _call(op: str, tree, ctx, boom_ok=False):
     fn = (OPS.get(op) or XOPS[op])[1]
     try:
         return ("ok", fn(tree, ctx))
     except _Boom:
         return ("boom",)
+    except RuntimeError as e:
+        if "lock" in str(e):  # "cannot release un-acquired lock": the operation released more than it took
+            _LOCKERRS.append(f"{op}: RuntimeError({e})")
+            return ("lockerr", str(e))
+        return ("exc", type(e).__name__)
     except Exception as e:  # noqa: BLE001 -- a refusal (e.g. copy_to of an empty tree) is a result too
         return ("exc", type(e).__name__)
 
@@ -437,7 +446,7 @@ def _writer(tree, steps, tag, park: bool):
                 steps[0]()
                 if park:
                     W.flag((tag, "mid"))
-                    if not W.wait(lambda f: (tag, "go") in f):
+                    if not W.wait(lambda f: (tag, "go") in f, timeout=6 * WD):
                         W.errors.append(f"writer {tag}: never released by the driver")
                 steps[1]()
             finally:
@@ -545,6 +554,9 @@ def case_reader_first(cls_name, spec, mut, op, k, ctx):
         what = W.log[-1][1] if W.log else "?"
         diffs.append((C_NOREAD, f"B's {op} was inside its structure read #{k} ({what}) when A entered `with tree:` and performed step 1 of {mut}: the operation does not hold the lock while it reads"))
     W.resume.set()
+    if a_entered:  # B read without the lock; it may now queue up behind A (F35 pattern): let A finish
+        W.wait(lambda f: ("B", "done") in f or ("blocked", "B") in f)
+        W.flag(("A", "go"))
     if not W.wait(lambda f: ("B", "done") in f):
         diffs.append((C_TERM, f"B's {op} did not finish within {WD}s after being resumed"))
     W.wait(lambda f: ("A", "mid") in f or ("A", "done") in f)
@@ -628,6 +640,14 @@ def _probe_free(tree) -> bool:
     return bool(out and out[0])
 
 
+def _leave(tree, out):
+    """`tree.__exit__` of the harness' own `with tree:`; an unbalanced lock shows up here."""
+    try:
+        tree.__exit__(None, None, None)
+    except RuntimeError as e:
+        out["unbalanced"] = str(e)
+
+
 def case_reentrant(cls_name, spec, op, depth, ctx):
     ref0 = _ref(cls_name, spec, [], op, ctx)
     tree, _nodes, diffs = _build(cls_name, spec, spylock=False)
@@ -643,12 +663,12 @@ def case_reentrant(cls_name, spec, op, depth, ctx):
                 out["held_in"] = not _probe_free(tree)
             finally:
                 for _ in range(depth - 1):
-                    tree.__exit__(None, None, None)
+                    _leave(tree, out)
             try:
                 out["r_outer"] = _call(op, tree, ctx)
                 out["held_outer"] = not _probe_free(tree)
             finally:
-                tree.__exit__(None, None, None)
+                _leave(tree, out)
             out["free_after"] = _probe_free(tree)
         except BaseException:  # noqa: BLE001
             out["err"] = traceback.format_exc()[-600:]
@@ -660,6 +680,8 @@ def case_reentrant(cls_name, spec, op, depth, ctx):
         return diffs, True
     if "err" in out:
         raise RuntimeError(out["err"])
+    if "unbalanced" in out:
+        diffs.append((C_DEPTH, f"the owner's own `with tree:` around {op} could not be left: {out['unbalanced']} (the operation released the owner's hold)"))
     for key in ("r_in", "r_outer"):
         if out[key] != ref0:
             diffs.append(("re-entrant call returns the same result as an unnested call", f"{op} inside {depth if key == 'r_in' else 1} nested `with tree:` returned {clip(out[key], 160)}; unnested: {clip(ref0, 160)}"))
@@ -679,9 +701,12 @@ def case_exception(cls_name, spec, op, ctx):
         try:
             out["r1"] = _call(op, tree, ctx)
             out["free1"] = _probe_free(tree)
-            with tree:
+            tree.__enter__()
+            try:
                 out["r2"] = _call(op, tree, ctx)
                 out["held2"] = not _probe_free(tree)
+            finally:
+                _leave(tree, out)
             out["free2"] = _probe_free(tree)
         except BaseException:  # noqa: BLE001
             out["err"] = traceback.format_exc()[-600:]
@@ -694,6 +719,8 @@ def case_exception(cls_name, spec, op, ctx):
     if "err" in out:
         raise RuntimeError(out["err"])
     raised = out["r1"] == ("boom",)
+    if "unbalanced" in out:
+        diffs.append((C_DEPTH, f"the owner's own `with tree:` around a failing {op} could not be left: {out['unbalanced']}"))
     if not out["free1"]:
         diffs.append((C_DEPTH, f"{op} left through {'an exception of its callback' if raised else 'a normal return'}: the tree lock is still held afterwards"))
     if not out["held2"]:
@@ -719,7 +746,7 @@ def _pairs_ok(labels: set):
     return None
 
 
-def case_stress(cls_name, sd, n_writers, n_sections, ctx, switch=1e-5):
+def case_stress(cls_name, sd, n_writers, n_sections, ctx, switch=1e-5, min_snaps=80):
     typed = cls_name == "TypedTree"
     spec = gen.Spec(tuple((-1, f"w{i}", None, ("k1" if typed else None)) for i in range(n_writers)), typed=typed)
     tree, nodes, diffs = _build(cls_name, spec, spylock=False)
@@ -738,20 +765,21 @@ def case_stress(cls_name, sd, n_writers, n_sections, ctx, switch=1e-5):
         live = []
         try:
             for j in range(n_sections):
+                if stop.is_set():
+                    break
                 with tree:
-                    if live and rng.random() < 0.3:
-                        p, q = live.pop(rng.randrange(len(live)))
-                        p.remove()
+                    if len(live) > 4 or (live and rng.random() < 0.3):
+                        first, second = live.pop(rng.randrange(len(live)))
+                        first.remove()
                         time.sleep(0)
-                        q.remove()
+                        second.remove()
                     else:
                         p = nodes[i].add(f"p{i}_{j}", **kw("k1"))
                         time.sleep(0)
                         q = (p if rng.random() < 0.5 else nodes[i]).add(f"q{i}_{j}", **kw("k2"))
-                        if q._parent is p:  # keep removal order simple: remove q first then
-                            live.append((q, p))
-                        else:
-                            live.append((p, q))
+                        # removal order: a child before its parent
+                        live.append((q, p) if q._parent is p else (p, q))
+                time.sleep(0)
         except BaseException:  # noqa: BLE001
             errs.append(traceback.format_exc()[-600:])
 
@@ -784,9 +812,12 @@ def case_stress(cls_name, sd, n_writers, n_sections, ctx, switch=1e-5):
     try:
         ws = [_thread(f"W{i}", writer, i) for i in range(n_writers)]
         rs = [_thread(f"R{r}", reader, r) for r in range(2)] + [_thread("raw", raw_reader)]
-        for t in ws:
-            t.join(WD * 5)
+        deadline = time.time() + 3.0
+        while time.time() < deadline and stats["snapshots"] < min_snaps and any(t.is_alive() for t in ws):
+            time.sleep(0.005)
         stop.set()
+        for t in ws:
+            t.join(WD)
         for t in rs:
             t.join(WD)
     finally:
@@ -802,19 +833,17 @@ def case_stress(cls_name, sd, n_writers, n_sections, ctx, switch=1e-5):
 
 # =========================================================================== driver
 def _specs(tier: str):
-    out = []
-    n_plain, n_typed = (2, 2) if tier == "quick" else (3, 2)
-    out += [("Tree", s) for s in gen.plain_specs(n_plain)]
-    out += [("TypedTree", s) for s in gen.typed_specs(n_typed)]
-    if tier == "quick":  # a few 3-node trees (chain, clone pair, wide)
+    out = [("Tree", s) for s in gen.plain_specs(3)]
+    if tier == "quick":
+        out += [("TypedTree", s) for s in gen.typed_specs(2)]
+        # a few typed 3-node trees (chain, clone pair, wide, fork)
         extra = [((-1, "a"), (0, "b"), (1, "c")), ((-1, "a"), (0, "b"), (-1, "b")), ((-1, "a"), (-1, "b"), (-1, "c")), ((-1, "a"), (0, "b"), (0, "c"))]
-        out += [("Tree", gen.Spec(tuple((p, l, None, None) for p, l in e))) for e in extra]
         out += [("TypedTree", gen.Spec(tuple((p, l, None, k) for (p, l), k in zip(e, ("k1", "k2", "k1"))), typed=True)) for e in extra]
     else:
+        out += [("TypedTree", s) for s in gen.typed_specs(3)]
         rng = random.Random(seed() * 7919 + 18)
-        out += [("TypedTree", gen.random_spec(rng, 3, typed=True, alphabet=("a", "b"))) for _ in range(40)]
-        out += [("Tree", gen.random_spec(rng, rng.randint(4, 6))) for _ in range(30)]
-        out += [("TypedTree", gen.random_spec(rng, rng.randint(4, 6), typed=True)) for _ in range(30)]
+        out += [("Tree", gen.random_spec(rng, rng.randint(4, 6))) for _ in range(40)]
+        out += [("TypedTree", gen.random_spec(rng, rng.randint(4, 6), typed=True)) for _ in range(40)]
     return out
 
 
@@ -833,7 +862,8 @@ def _items(tier: str, only=None):
             for op in ops:
                 if want("writer-first"):
                     items.append(("writer-first", cls_name, spec, mut, op))
-                if want("reader-first"):
+                # for the reader-first schedule the writer only queues up: two writers suffice in quick
+                if want("reader-first") and (tier != "quick" or mut in ("add2", "clear_add")):
                     items.append(("reader-first", cls_name, spec, mut, op))
         if want("reentrant"):
             for op in ops:
@@ -854,7 +884,7 @@ def _items(tier: str, only=None):
                 items.append(("blackbox", cls_name, spec, "add2", op))
     if want("stress"):
         for i in range(16 if tier == "quick" else 96):
-            items.append(("stress", ("Tree", "TypedTree")[i % 2], seed() * 1000 + i, 2 + (i // 2) % 2, 15 if tier == "quick" else 40))
+            items.append(("stress", ("Tree", "TypedTree")[i % 2], seed() * 1000 + i, 2 + (i // 2) % 2, 400 if tier == "quick" else 1500))
     return items
 
 
@@ -898,6 +928,15 @@ def _item_of(w: dict):
 
 def _eval(item, ctx):
     """-> list of (sub_item, diffs, nontrivial, func)."""
+    _LOCKERRS.clear()
+    outs = _eval0(item, ctx)
+    if _LOCKERRS and outs:
+        outs[0][1].append((C_DEPTH, f"lock protocol error raised by the library: {sorted(set(_LOCKERRS))[:3]}"))
+    _LOCKERRS.clear()
+    return outs
+
+
+def _eval0(item, ctx):
     g, cls_name = item[0], item[1]
     if g == "writer-first" or g == "blackbox":
         _g, _c, spec, mut, op = item
@@ -926,7 +965,7 @@ def _eval(item, ctx):
         r = case_two_writers(cls_name, item[2], item[3], item[4], item[5], ctx)
         return [] if r is None else [(item, r[0], r[1], _func_of(item[4], cls_name) + " / " + _func_of(item[5], cls_name))]
     if g == "stress":
-        diffs, stats = case_stress(cls_name, item[2], item[3], item[4], ctx)
+        diffs, stats = case_stress(cls_name, item[2], item[3], item[4], ctx, min_snaps=item[4] // 5)
         return [(item, diffs, True, "snapshot operations (free-running)", stats)]
     raise ValueError(g)
 
@@ -944,7 +983,12 @@ def _run_chunk(chunk, prop):
     ctx = {"dir": d}
     snaps = raw_bad = 0
     try:
-        for item in chunk:
+        timeouts = 0
+        for pos, item in enumerate(chunk):
+            # circuit breaker: a leaked lock makes every later wait run into the watchdog
+            if timeouts >= 2 or (_BREAKER is not None and _BREAKER.value >= 8):
+                res.notes.append(("skipped", len(chunk) - pos))
+                break
             try:
                 outs = _eval(item, ctx)
             except Exception:  # noqa: BLE001
@@ -959,6 +1003,11 @@ def _run_chunk(chunk, prop):
                 res.add_case(_case_repr(sub), nontrivial=nontrivial)
                 for clause, text in diffs:
                     res.violations.append(Violation(prop, clause, func, _witness(sub), clip(text)))
+                if any(c == C_TERM for c, _t in diffs):
+                    timeouts += 1
+                    if _BREAKER is not None:
+                        with _BREAKER.get_lock():
+                            _BREAKER.value += 1
     finally:
         shutil.rmtree(d, ignore_errors=True)
     if snaps:
@@ -967,29 +1016,34 @@ def _run_chunk(chunk, prop):
 
 
 def run(prop: str, tier: str, only=None) -> Result:
+    global _BREAKER
+    import multiprocessing as mp
+
+    _BREAKER = mp.get_context("fork").Value("i", 0)
     items = _items(tier, only)
     # stress items last and spread evenly; everything else in enumeration order
     res = parallel(_run_chunk, items, prop, prop=prop, chunks_per_proc=6)
     snaps = sum(n[1] for n in res.notes if isinstance(n, tuple) and n[0] == "stress")
     raw_bad = sum(n[2] for n in res.notes if isinstance(n, tuple) and n[0] == "stress")
     res.notes = [n for n in res.notes if not (isinstance(n, tuple) and n[0] == "stress")]
+    skipped = sum(n[1] for n in res.notes if isinstance(n, tuple) and n[0] == "skipped")
+    res.notes = [n for n in res.notes if not (isinstance(n, tuple) and n[0] == "skipped")]
+    if skipped:
+        res.notes.append(f"circuit breaker: {skipped} cases not evaluated after repeated watchdog time-outs (see the `terminates` violations)")
     if snaps:
         res.notes.append(f"stress: {snaps} snapshots taken by free-running readers all satisfied the writers' pair invariant; "
                          f"sensitivity probe: an unlocked raw walker of the same trees saw {raw_bad} torn states")
-    n_specs = {}
-    for it in items:
-        if it[0] != "stress":
-            n_specs.setdefault(it[1], set()).add(it[2].key())
-    specs_txt = ("all plain trees with <= 2 nodes over labels {a,b,c} + 4 three-node trees (chain, clone pair, wide, fork); typed: all typed trees with <= 2 nodes over {a,b} x kinds {k1,k2} + the same 4 three-node trees"
+    specs_txt = ("all plain trees with <= 3 nodes over labels {a,b,c} (clones incl.); all typed trees with <= 2 nodes over {a,b} x kinds {k1,k2} + 4 typed three-node trees (chain, clone pair, wide, fork)"
                  if tier == "quick" else
-                 f"all plain trees with <= 3 nodes over {{a,b,c}} (clones incl.), all typed trees with <= 2 nodes x kinds {{k1,k2}}, 40 random typed 3-node and 60 random 4..6-node trees (VERIF_SEED={seed()})")
+                 f"all plain trees with <= 3 nodes over {{a,b,c}} (clones incl.), all typed trees with <= 3 nodes over {{a,b}} x kinds {{k1,k2}}, 80 random 4..6-node plain/typed trees (VERIF_SEED={seed()})")
     res.bounds["controlled schedules (writer-first, reader-first)"] = (
         f"{specs_txt} x two-step writers {list(MUTS)} x operations {list(OPS)} (Tree and TypedTree; TypedTree.save incl. value_map variants); "
-        "writer-first: reader started while the writer is parked between its two steps; reader-first: reader parked in its first / middle / last structure read while the writer queues up")
+        "writer-first: reader started while the writer is parked between its two steps; reader-first: reader parked in its first / middle / last structure read while the writer queues up"
+        + (" (reader-first: writers add2 and clear_add only)" if tier == "quick" else ""))
     res.bounds["reentrant / exception"] = "same trees x every operation x nesting depth 2 and 3 (watchdog %.0fs); raising mapper/predicate callbacks for save, to_dict_list, copy(predicate), to_dotfile" % WD
     res.bounds["two-writers"] = "trees with <= 2 nodes x {add2, ren2} x sampled operation pairs: writer A parked inside, writer A2 and readers B, B2 queued"
     res.bounds["blackbox"] = "one 2-node tree per class x every operation with the untouched RLock (bounded join 0.12s instead of lock instrumentation)"
-    res.bounds["stress"] = f"{16 if tier == 'quick' else 96} free-running runs (2-3 writers x {15 if tier == 'quick' else 40} critical sections, 2 readers over all operations, switch interval 1e-5s): random schedules"
+    res.bounds["stress"] = f"{16 if tier == 'quick' else 96} free-running runs (2-3 writers x up to {400 if tier == 'quick' else 1500} critical sections, 2 readers over all operations until {80 if tier == 'quick' else 300} snapshots or 3s, switch interval 1e-5s): random schedules"
     res.exhaustive = False  # thread schedules are not enumerated exhaustively (and the stress group is random)
     res.notes.append("schedules are controlled hand-overs at fixed points (between the writer's two steps; inside the reader's k-th structure read), not all interleavings; mutual exclusion of threading.RLock itself is assumed")
     return res
